@@ -132,7 +132,7 @@ EvKeygen ==
     /\ UNCHANGED resultOf
 
 EvLoad ==
-    /\ E.ev = "load" /\ call.pc = "idle"
+    /\ E.ev = "load" /\ call.pc = "idle" /\ "k" \in DOMAIN E
     /\ IF E.res = "ok"
        THEN /\ A!Reload(E.k)
             /\ Advance(CmpBytes("reload_value", store[E.k].b, E.mem_after))
@@ -140,7 +140,7 @@ EvLoad ==
     /\ UNCHANGED <<cache, resultOf, base>>
 
 EvPersist ==
-    /\ E.ev = "persist" /\ call.pc = "idle"
+    /\ E.ev = "persist" /\ call.pc = "idle" /\ "k" \in DOMAIN E
     /\ A!Persist(E.k)
     /\ Advance(CmpBytes("persist_value", mem[E.k].b, E.key))
     /\ UNCHANGED <<cache, resultOf, base>>
@@ -174,7 +174,7 @@ EvReset ==
 
 (* events the protocol model has no action for: judged by the data layer only *)
 EvOther ==
-    /\ E.ev \in {"verify", "hook", "info", "hang", "sign_mut"} \/ (E.ev = "sign" /\ "k" \notin DOMAIN E)
+    /\ E.ev \in {"verify", "hook", "info", "hang", "sign_mut"} \/ (E.ev \in {"sign", "load", "persist"} /\ "k" \notin DOMAIN E)
     /\ call.pc = "idle"
     /\ LET j == Judge(E, cache) IN cache' = j.c /\ Advance(j.v \o (IF E.ev = "sign" THEN DetVerdict(E) ELSE <<>>))
     /\ resultOf' = IF E.ev = "sign" THEN RecordResult(E) ELSE resultOf
